@@ -110,6 +110,12 @@ def cases(ctx):
                 yield ("elem", ci, enc)
     for ki in range(7):
         yield ("p256", ki)
+    # crafted explicit curve parameters (field prime, coefficients, base point, order, cofactor) in public and private form
+    for ci, cur in enumerate(STD):
+        if cur.name in ("SECP112r1", "NIST256p") or not ctx.quick:
+            for what in PARAM_CASES:
+                for form in ("pub", "pub-compressed", "priv"):
+                    yield ("params", ci, what, form)
     # private scalars outside 1..n-1 in every private form: a documented error, never a key and never another exception
     for ci in range(len(STD)):
         for sc in ("0", "n", "n+1", "2n", "max"):
@@ -362,6 +368,67 @@ def ossl_pub_of(der, private):
     return pt
 
 
+PARAM_CASES = ["control", "p=q^2", "p=0", "p=1", "p=2", "p=3", "p=4", "p=9", "p=15", "p+2", "p=2^k", "a-empty", "b-empty", "a>=p", "b>=p",
+               "base-y0", "base-00", "base-infinity", "base-off-curve", "base-x>=p", "base-empty", "n=0", "n=1", "n=2", "n+1", "h=0", "h-absent"]
+PRIME_FIELD_OID = (1, 2, 840, 10045, 1, 1)
+
+
+def crafted_params(cur, what, compressed):
+    """ECParameters of the curve with one crafted member (reference DER builder)"""
+    cv = ref_curve(cur)
+    size = cur.verifying_key_length // 2
+    prime, a, b, n, h = cv.p, cv.a % cv.p, cv.b % cv.p, cv.n, 1
+    ab = a.to_bytes(size, "big")
+    bb = b.to_bytes(size, "big")
+    gx, gy = cv.g
+    base = D.point_bytes(gx, gy, size) if not compressed else bytes([2 + (gy & 1)]) + gx.to_bytes(size, "big")
+    if what == "p=q^2":
+        prime = cv.p * cv.p      # every odd square is 1 mod 8: a square-root search for a non-residue never ends
+        ab, bb = a.to_bytes(2 * size, "big"), b.to_bytes(2 * size, "big")
+        base = D.point_bytes(gx, gy, 2 * size) if not compressed else bytes([2 + (gy & 1)]) + gx.to_bytes(2 * size, "big")
+    elif what.startswith("p="):
+        prime = {"p=0": 0, "p=1": 1, "p=2": 2, "p=3": 3, "p=4": 4, "p=9": 9, "p=15": 15, "p=2^k": 1 << (8 * size - 1)}[what]
+        if prime < 256:
+            # a tiny 'field': coefficients and coordinates are one byte long, so that the point strings have the length the
+            # decoder expects for that modulus
+            ab = bb = b"\x01"
+            base = b"\x04\x01\x01" if not compressed else b"\x02\x01"
+    elif what == "p+2":
+        prime = cv.p + 2
+    elif what == "a-empty":
+        ab = b""
+    elif what == "b-empty":
+        bb = b""
+    elif what == "a>=p":
+        ab = (a + cv.p).to_bytes(size + 1, "big")
+    elif what == "b>=p":
+        bb = (b + cv.p).to_bytes(size + 1, "big")
+    elif what == "base-y0":
+        base = D.point_bytes(5, 0, size)
+    elif what == "base-00":
+        base = D.point_bytes(0, 0, size)
+    elif what == "base-infinity":
+        base = b"\x00"
+    elif what == "base-off-curve":
+        base = D.point_bytes(gx, (gy + 1) % cv.p, size)
+    elif what == "base-x>=p":
+        if cv.p + gx >= 1 << (8 * size):
+            return None
+        base = D.point_bytes(gx + cv.p, gy, size)
+    elif what == "base-empty":
+        base = b""
+    elif what in ("n=0", "n=1", "n=2"):
+        n = int(what[2:])
+    elif what == "n+1":
+        n = cv.n + 1
+    items = [D.integer(1), D.seq(D.oid(PRIME_FIELD_OID), D.integer(prime)), D.seq(D.octets(ab), D.octets(bb)), D.octets(base), D.integer(n)]
+    if what == "h=0":
+        items.append(D.integer(0))
+    elif what != "h-absent":
+        items.append(D.integer(h))
+    return D.seq(*items)
+
+
 def pem_body(pem, label):
     """DER inside a PEM text with exactly the given label, decoded without the library; None if the armour is not as expected"""
     import base64
@@ -378,6 +445,64 @@ def pem_body(pem, label):
 def run_case(ctx, case):
     kind = case[0]
     o = Outcome("ok", True)
+    if kind == "params":
+        import signal
+        from ..core import HangError
+        cur = STD[case[1]]
+        what, form = case[2], case[3]
+        cv = ref_curve(cur)
+        size = cur.verifying_key_length // 2
+        params = crafted_params(cur, what, form == "pub-compressed")
+        if params is None:
+            return Outcome("not-encodable", False)
+        d = 7
+        Q = cv.mul(d, cv.g)
+        if what in ("p=0", "p=1", "p=2", "p=3", "p=4", "p=9", "p=15"):
+            size = 1
+            Q = (1, 1)
+        if what == "p=q^2":
+            size = 2 * size
+        if form == "priv":
+            blob = D.seq(D.integer(1), D.octets(d.to_bytes(cur.baselen, "big")), D.ctx(0, params), D.ctx(1, D.bitstring(D.point_bytes(Q[0], Q[1], size))))
+            fn = lambda: SigningKey.from_der(blob)      # noqa: E731
+        else:
+            pt = D.point_bytes(Q[0], Q[1], size) if form == "pub" else bytes([2 + (Q[1] & 1)]) + Q[0].to_bytes(size, "big")
+            blob = D.seq(D.seq(D.oid(D.OID_EC_PUBKEY), params), D.bitstring(pt))
+            fn = lambda: VerifyingKey.from_der(blob)    # noqa: E731
+
+        def _alarm(signum, frame):
+            raise HangError("watchdog")
+        old = signal.signal(signal.SIGALRM, _alarm)
+        signal.alarm(20)
+        try:
+            try:
+                key = fn()
+                o.cls = "decoded"
+            finally:
+                signal.alarm(0)
+                signal.signal(signal.SIGALRM, old)
+        except HangError:
+            o.cls = "hang"
+            o.viol("params|hang|%s" % what, "%s: explicit parameters with %s (%s) did not decode within 20 s" % (cur.name, what, form))
+        except DOCUMENTED:
+            o.cls = "documented-error"
+        except Exception as e:
+            o.cls = "foreign"
+            import traceback as _tbm
+            tb = _tbm.extract_tb(e.__traceback__)
+            o.viol("params|undocumented|%s|%s" % (what, type(e).__name__), "%s: explicit parameters with %s (%s) raised undocumented %s in %s: %s" % (
+                cur.name, what, form, type(e).__name__, tb[-1].name if tb else "?", e))
+        else:
+            if what == "control":
+                if key.curve != cur:
+                    o.viol("params|control", "%s: valid explicit parameters do not decode to the named curve" % cur.name)
+            else:
+                # the statement asks for documented errors WHEN a decoder fails; whether semantically odd parameters are refused
+                # is not fixed by it, so acceptance is only recorded as an outcome class
+                o.cls = "accepted-odd-parameters"
+        if what == "control" and o.cls != "decoded":
+            o.viol("params|control-refused", "%s: valid explicit parameters (%s) are refused (%s)" % (cur.name, form, o.cls))
+        return o
     if kind == "scalar":
         cur = STD[case[1]]
         n = int(cur.order)
